@@ -47,8 +47,7 @@ pub fn worker(a: &WorkerArgs) {
     let mut i = a.from + a.offset;
     while i < a.to {
         let scn = scen::generate(&a.prop, a.seed, i);
-        let mut st = RunStats::new(false);
-        let v = scn.run(&mut st);
+        let (v, st) = run_once(&scn, false);
         out.scenarios += 1;
         out.execs += st.execs;
         out.sim_seconds += st.sim_seconds;
@@ -219,10 +218,31 @@ pub fn load_known(verif_dir: &Path) -> Vec<Known> {
 // Minimisation and replay files
 // ---------------------------------------------------------------------------
 
-pub fn run_once(scn: &Scenario, transcript: bool) -> (Option<Violation>, RunStats) {
+/// Executes a scenario in this process (used by `replay`, which is a fresh process already).
+pub fn run_here(scn: &Scenario, transcript: bool) -> (Option<Violation>, RunStats) {
+    if scn.needs_fresh_reference() {
+        crate::iso::start_reference_server();
+    }
     let mut st = RunStats::new(transcript);
     let v = scn.run(&mut st);
+    crate::iso::stop_reference_server();
     (v, st)
+}
+
+/// Executes a scenario in a forked child of this (pristine) process.
+pub fn run_once(scn: &Scenario, transcript: bool) -> (Option<Violation>, RunStats) {
+    match crate::iso::in_child(|| run_here(scn, transcript)) {
+        Ok(r) => r,
+        Err(e) => {
+            // the scenario process itself died (abort / stack overflow in the code under test):
+            // a totality matter, counted, not judged here
+            let mut st = RunStats::new(false);
+            st.unevaluable = true;
+            st.bump("unevaluable_scenario_process_died");
+            st.note(e);
+            (None, st)
+        }
+    }
 }
 
 pub fn minimise(scn: Scenario, invariant: &str, budget: &mut u64) -> Scenario {
@@ -278,7 +298,7 @@ pub fn replay(path: &Path) -> i32 {
             return 2;
         }
     };
-    let (v, st) = run_once(&rf.scenario, true);
+    let (v, st) = run_here(&rf.scenario, true);
     println!("--- source under test ---\n{}\n--- transcript ---", rf.rendered_source);
     for l in &st.transcript {
         println!("{}", l);
